@@ -33,7 +33,9 @@ inline ValueCmp token_cmp() {
 // merge callback: concatenation (deliberately non-commutative); optionally fails at the j-th call
 struct MergeClos {
   long long calls = 0;
-  long long fail_at = -1;  // 1-based call number that reports failure (merged_val left NULL)
+  long long fail_at = -1;  // 1-based call number that reports failure
+  int fail_style = 0;      // how failure is reported: 0 stores NULL into *merged_val, 1 returns without storing anything
+                           // (the library presets *merged_val = NULL before each call, so both mean "no value")
   std::vector<std::pair<bytes, std::pair<bytes, bytes>>> log;  // (key, (val0, val1))
   bool keep_log = true;
 };
@@ -49,8 +51,10 @@ static void concat_merge(void *clos, const uint8_t *key, size_t len_key, const u
     pthread_mutex_unlock(&mu);
   }
   if (mc->fail_at >= 0 && my_call == mc->fail_at) {
-    *merged = nullptr;
-    *len_merged = 0;
+    if (mc->fail_style == 0) {
+      *merged = nullptr;
+      *len_merged = 0;
+    }
     return;
   }
   *len_merged = l0 + l1;
